@@ -440,6 +440,7 @@ static void plan_c02(int with_rs, int with_xor, int with_isa, const char *prop)
 
 /* ------------------------------------------------------------------ plan C06: fragments_needed */
 struct nctx { struct stripe *s; int tol; };
+static int needed_check_ledger;          /* set by the C16 sweep: the query allocates scratch lists and must release them on every path */
 static int lists_intact(const int *a, const int *b, int n) { return !memcmp(a, b, sizeof(int) * (size_t)n); }
 static void needed_case(struct stripe *s, uint32_t R, uint32_t X, int desc_order, int within)
 {
@@ -458,7 +459,9 @@ static void needed_case(struct stripe *s, uint32_t R, uint32_t X, int desc_order
     char opn[96]; snprintf(opn, sizeof opn, "liberasurecode_fragments_needed:%s", be_name(s->sh.be)); vh_op(opn);
     vh_transitions(1);
     long before = tap_calls[TAP_NEEDED];
+    long nl0 = ledger_count(), nb0 = ledger_bytes();
     int rc = liberasurecode_fragments_needed(s->desc, gr, gx, N);
+    if (needed_check_ledger && (ledger_count() != nl0 || ledger_bytes() != nb0)) vh_violation("leak", "fragments_needed R=0x%x X=0x%x (rc=%d) left %ld blocks / %ld bytes allocated", R, X, rc, ledger_count() - nl0, ledger_bytes() - nb0);
     if (tap_calls[TAP_NEEDED] > before) vh_nontrivial();
     if (!lists_intact(gr, rl, nr + 1) || !lists_intact(gx, xl, nx + 1)) vh_violation("input-modified", "fragments_needed modified its input lists");
     if (rc != 0) {
@@ -507,12 +510,13 @@ static void on_union(uint32_t U, void *ctx)
         if (__builtin_popcount(U) > 1) needed_case(s, R, U & ~R, 1, within);
     }
 }
-static void plan_c06(int with_rs, int with_xor, int with_isa, const char *prop)
+static void plan_c06_impl(int with_rs, int with_xor, int with_isa, const char *prop, int only_n)
 {
     int thorough = !strcmp(vh_tier(), "thorough");
     int ex_n = (int)vh_opt("ex_n", thorough ? 12 : 10);
     struct shape *sh; int ns; collect_shapes(&sh, &ns, with_rs, with_xor, with_isa);
     for (int i = 0; i < ns; i++) {
+        if (only_n && !is_xor(sh[i].be) && sh[i].k + sh[i].m > only_n) continue;
         uint64_t a = (uint64_t)sh[i].k * word_bytes(sh[i].be);
         if (!vh_group_begin("S/%s/%s/k%dm%dhd%d/needed", prop, be_name(sh[i].be), sh[i].k, sh[i].m, sh[i].hd)) continue;
         struct stripe s;
@@ -533,6 +537,8 @@ static void plan_c06(int with_rs, int with_xor, int with_isa, const char *prop)
     }
     free(sh);
 }
+
+static void plan_c06(int with_rs, int with_xor, int with_isa, const char *prop) { plan_c06_impl(with_rs, with_xor, with_isa, prop, 0); }
 
 /* ------------------------------------------------------------------ plan C07 wire format, C04(d)/C05 parity bytes */
 static void encode_vs_reference(const char *prop, struct shape sh, int ct, uint64_t len, int pat, const char *env, int payload_only, int parity_only)
@@ -926,6 +932,8 @@ static void plan_c16s(void)
         if (sh[i].k + sh[i].m <= all_n) { p2.do_recon_all = 1; p2.do_recon_missing = 0; }
         explore_stripe(&p2, sh[i], CHKSUM_CRC32, 2 * a + 3, PAT_RAMP, NULL, -1, -1);
     }
+    /* fragments_needed for every request within tolerance + 1 of every flat-XOR table (and RS / ISA-L n <= 8), ledger compared around each query */
+    needed_check_ledger = 1; plan_c06_impl(1, 1, 1, "C16fn", 8); needed_check_ledger = 0;
     for (int i = 0; i < ns; i++) {
         uint64_t a = (uint64_t)sh[i].k * word_bytes(sh[i].be);
         if (!vh_group_begin("S/C16/%s/k%dm%dhd%d", be_name(sh[i].be), sh[i].k, sh[i].m, sh[i].hd)) continue;
